@@ -418,13 +418,21 @@ pub fn run(tier: Tier, replay: Option<&str>) {
     let mut capped = false;
     let mut outcomes: std::collections::BTreeMap<String, u64> = Default::default();
     let mut runs = vec![];
+    // (two deviations per history are completed one level less deep than one deviation: the alphabet has several hundred
+    // fault positions per state)
+    // (only the deepest tier splits: the quick tier completes two deviations at its full depth everywhere)
+    let b1 = if crate::ctx::deep() { 1 } else { bound };
     for region in ["EU868", "US915"] {
         for s in &starts {
             let mut d = DevCfg::abp(region);
             d.fcnt_up = *s;
-            runs.push(RunCfg { front: "nb".into(), class_c: false, bound, dev: d.clone() });
-            runs.push(RunCfg { front: "async".into(), class_c: false, bound, dev: d.clone() });
-            runs.push(RunCfg { front: "async".into(), class_c: true, bound, dev: d });
+            runs.push(RunCfg { front: "nb".into(), class_c: false, bound: b1, dev: d.clone() });
+            runs.push(RunCfg { front: "async".into(), class_c: false, bound: b1, dev: d.clone() });
+            runs.push(RunCfg { front: "async".into(), class_c: true, bound: b1, dev: d.clone() });
+            if crate::ctx::deep() && matches!(s, None | Some(0xFFFF_FFFE)) {
+                runs.push(RunCfg { front: "nb".into(), class_c: false, bound, dev: d.clone() });
+                runs.push(RunCfg { front: "async".into(), class_c: true, bound, dev: d });
+            }
         }
     }
     // boards whose receive windows stay open as long as / longer than the RX1 -> RX2 gap, and with a non-zero window offset
@@ -433,16 +441,16 @@ pub fn run(tier: Tier, replay: Option<&str>) {
         let mut d = DevCfg::abp("EU868");
         d.duration_ms = dur;
         d.offset_ms = offs;
-        runs.push(RunCfg { front: "nb".into(), class_c: false, bound, dev: d.clone() });
-        runs.push(RunCfg { front: "async".into(), class_c: true, bound, dev: d });
+        runs.push(RunCfg { front: "nb".into(), class_c: false, bound: b1, dev: d.clone() });
+        runs.push(RunCfg { front: "async".into(), class_c: true, bound: b1, dev: d });
     }
     // an application that leaves received downlinks in the queue through the following uplink
     for class_c in [false, true] {
         let mut d = DevCfg::abp("EU868");
         d.hold_downlinks = true;
-        runs.push(RunCfg { front: "async".into(), class_c, bound, dev: d.clone() });
+        runs.push(RunCfg { front: "async".into(), class_c, bound: bound.min(1), dev: d.clone() });
         if !class_c {
-            runs.push(RunCfg { front: "nb".into(), class_c: false, bound, dev: d });
+            runs.push(RunCfg { front: "nb".into(), class_c: false, bound: bound.min(1), dev: d });
         }
     }
     // sessions one uplink before each ADR back-off step (64 uplinks without a downlink: ADRACKReq; 96, 128: a
@@ -461,7 +469,8 @@ pub fn run(tier: Tier, replay: Option<&str>) {
     }
     for rc in &runs {
         let cj = serde_json::to_value(rc).unwrap();
-        let depth = if rc.dev.adr_ack_cnt.is_some() { 3 } else { depth };
+        // (the queue dimension multiplies the state space: the runs with held downlinks keep the quick tier's depth)
+        let depth = if rc.dev.adr_ack_cnt.is_some() { 3 } else if rc.dev.hold_downlinks { depth.min(4) } else if crate::ctx::deep() && rc.bound >= 2 { depth - 1 } else { depth };
             let st = if rc.front == "nb" {
             explore::bfs(&ctx, &cj, &|| NbSys::new(&rc.dev, rc.bound), depth, 2_000_000)
         } else {
